@@ -50,13 +50,13 @@ def closure_seq(kinds, label: str):
 VOCQ = [M.TEXT, M.BGROUP, M.EGROUP, M.BREPEAT_COUNT, M.EREPEAT, M.SELECT_OTHER, M.TRIGGERED]
 
 
-def c02_seq3(k0: int, i1: int, i2: int, l0: int, l1: int) -> bool:
+def c02_seq3(k0: int, i1: int, i2: int, l0: int) -> bool:
     """
     vpre: 0 <= i2 <= 6
-    vpre: 33 <= l0 <= 126 and l0 != 36 and 33 <= l1 <= 126 and l1 != 36
+    vpre: 33 <= l0 <= 126 and l0 != 36
     vpost: _ == True
     """
-    return closure_seq([M.TEXT, k0, VOCQ[i1], VOCQ[i2]], S(l0, l1))
+    return closure_seq([M.TEXT, k0, VOCQ[i1], VOCQ[i2]], S(l0, 66))
 
 
 specialise(
@@ -68,19 +68,19 @@ specialise(
     timeout=300,
     kernel=K,
     shims=("S1", "S2", "S3", "S4"),
-    symbolic="one row kind over a 7-kind vocabulary (text, begin/end group, repeat with literal count (_count helper), end repeat, select or_other (_other helper), triggered calculate) and a 2-character label tracer",
+    symbolic="one row kind over a 7-kind vocabulary (text, begin/end group, repeat with literal count (_count helper), end repeat, select or_other (_other helper), triggered calculate) and a label tracer with one symbolic character",
     bounds="row 0 is a text question (trigger source), rows 1-2 fixed per instance, row 3 symbolic: all 7^3 sequences after the first row",
     weight=40,
 )
 
 
-def c02_seq3full(k0: int, k1: int, i2: int, l0: int, l1: int) -> bool:
+def c02_seq3full(k0: int, k1: int, i2: int, l0: int) -> bool:
     """
     vpre: 0 <= i2 <= 11
-    vpre: 33 <= l0 <= 126 and l0 != 36 and 33 <= l1 <= 126 and l1 != 36
+    vpre: 33 <= l0 <= 126 and l0 != 36
     vpost: _ == True
     """
-    return closure_seq([M.TEXT, k0, k1, VOC[i2]], S(l0, l1))
+    return closure_seq([M.TEXT, k0, k1, VOC[i2]], S(l0, 66))
 
 
 specialise(
@@ -93,7 +93,7 @@ specialise(
     timeout=400,
     kernel=K,
     shims=("S1", "S2", "S3", "S4"),
-    symbolic="one row kind over the 12-kind vocabulary (text, calculate, begin/end group, begin/end repeat, select or_other, repeat with literal count, dynamic default, triggered calculate, table-list group, select_one) and a 2-character label tracer",
+    symbolic="one row kind over the 12-kind vocabulary (text, calculate, begin/end group, begin/end repeat, select or_other, repeat with literal count, dynamic default, triggered calculate, table-list group, select_one) and a label tracer with one symbolic character",
     bounds="rows 1-2 fixed per instance: all 12^3 sequences of length 3 after the first text row",
     weight=60,
 )
